@@ -39,6 +39,9 @@ func (s *c17Scenario) files() map[string]string {
 				continue
 			}
 			fmt.Fprintf(&sb, "type In%s struct{ V int; W string }\n", c.name)
+			if c.fault == "extend2" {
+				fmt.Fprintf(&sb, "func Okay%s(v uint8) uint16 { return uint16(v) }\n", c.name)
+			}
 			if c.fault == "conversion" {
 				fmt.Fprintf(&sb, "type Out%s struct{ V int; W string; Missing bool }\n\n", c.name)
 			} else {
@@ -53,6 +56,9 @@ func (s *c17Scenario) files() map[string]string {
 				sb.WriteString("// goverter:output:raw func broken( {\n")
 			case "extend":
 				sb.WriteString("// goverter:extend NoSuchFunction\n")
+			case "extend2":
+				// a failing entry followed by a valid one on the same line
+				fmt.Fprintf(&sb, "// goverter:extend NoSuchFunction Okay%s\n", c.name)
 			}
 			if c.fault == "location" || c.fault == "location2" {
 				// fails only when the files are written: the output file is an existing directory / lies below a regular file
@@ -140,7 +146,7 @@ func C17(e *core.Env) int {
 		label  string
 	}
 	var runs []run
-	stages := []string{"directive", "signature", "conversion", "render", "extend", "location", "location2"}
+	stages := []string{"directive", "signature", "conversion", "render", "extend", "extend2", "location", "location2"}
 	priors := []string{"none", "current", "stale", "foreign"}
 	outs := []string{"", "", "own", "shared", "same", "deep"}
 	for si := 0; si < nScen; si++ {
